@@ -530,7 +530,7 @@ def genInvalidCases (seed n : Nat) : List String := Id.run do
       let some (si2, fr, cls, must) := got2 | continue
       let known := i % 4 == 1
       -- every eighth file declares FEWER samples than its (otherwise untouched) frames hold
-      let overshoot := i % 16 == 3
+      let overshoot := i % 16 == 3 && fr.hdr.blockSize * (if i % 32 == 3 then 2 else 1) > 1 + (i / 16 % 5)
       let twice := i % 32 == 3
       let total := if overshoot then (fr.hdr.blockSize * (if twice then 2 else 1)) - 1 - (i / 16 % 5) else if known then fr.hdr.blockSize else 0
       let head := fileHead si2 total (List.replicate 16 0) 16
